@@ -146,6 +146,14 @@ def sec6():
         'and rules shared with the neighbour that had caught the variant: URI pattern dispatch (C01, C03), shutdown flag (C03),',
         'dict privacy of the kill GOODBYE (C05, C18), meta-session shutdown join (C07), duplicate callee (C08), last received',
         'id (C16), no nil message from a transport (C17), private copies for in-process subscribers (C20).',
+        'Round 5 (eight agents, the properties with most earlier misses, told which places earlier rounds had used): 16 variants,',
+        'first run 6 missed outright, 3 caught only by a neighbour. New rules: an action closure that signals completion through a',
+        'captured channel does so on every path (C04, C06, C07); the substitute key used for an unknown authid comes from',
+        'crypto/rand (C09); a listener\'s zero outbound queue size is replaced by the default in the accept path (C07, C15); the',
+        'reply hand-over channel is unbuffered (C16, C17); ConnectNet never hands a nil logger to a transport, the websocket',
+        'ping handler never blocks on the send goroutine (C17); ruleFailCall shared with C06, progressive stickiness with C13.',
+        'One round-5 variant (an off-by-one bound on a new serializer table indexed by the handshake byte) is caught by C15',
+        'only: C04\'s index rule covers message payload lists, not tables indexed by wire bytes.',
         'Reading for these rounds also turned up four more genuine defects, all reproduced and repaired: D31 (sub-agent',
         'remark while working on C02), D32–D34 (sub-agent remarks while working on C06) and D35 (several sub-agents saw the',
         'repository\'s own TestClientRace hang in Client.Register under load: an API call blocked in its send when the session',
